@@ -235,6 +235,22 @@ def _fit(R, rng, ctx, i=0):
                         innovation_filtering=rng.choice([None, 5.0]), max_dt_sec=rng.choice([0.1, 0.5]))
     ad = python.SklearnEKFAdapter.Create(b.ui_model, b.process_noise, b.sensor_models, b.sensor_noises,
                                          b.calibration_map, config=cfg)
+    if i % 4 == 0:
+        # an estimator object that was used with another model before (other control and sensor names) and
+        # then re-parameterised with set_params: nothing of the earlier model may take part in the fit
+        other = gen.contractive_program(rng, n_state=(1, 2), n_control=(1, 3), n_calib=(0, 0), n_sensor=(1, 1),
+                                        n_reading=(1, 2), depth=1, n_shared=(0, 1), allow_text=False)
+        ob = build.Built(other)
+        ad = python.SklearnEKFAdapter.Create(ob.ui_model, ob.process_noise, ob.sensor_models, ob.sensor_noises,
+                                             ob.calibration_map, config=cfg)
+        ow = len(other["control"]) + sum(len(rd) for rd in other["sensors"].values())
+        try:
+            ad.transform(np.array([[rng.gauss(0, 1) for _ in range(ow)] for _ in range(3)]))
+        except Exception:  # noqa: BLE001 - the earlier use is not the call under observation
+            pass
+        ad.set_params(symbolic_model=b.ui_model, process_noise=b.process_noise, sensor_models=b.sensor_models,
+                      sensor_noises=b.sensor_noises, calibration_map=b.calibration_map)
+        R.stats.inc("fits_on_reparameterised_estimators")
     width = len(defn["control"]) + sum(len(rd) for rd in defn["sensors"].values())
     rows = rng.randint(3, 12)
     scale = rng.choice([0.1, 1.0, 1.0, 5.0])
